@@ -270,6 +270,8 @@ class Check:
         replay_obj = dict(replay_obj); replay_obj['property'] = self.prop; replay_obj['what'] = what
         replay_obj['failing_input_found'] = bool(found_input)
         json.dump(replay_obj, open(path, 'w'), indent=1)
+        if any(v[1] == path for v in self.violations):
+            return
         self.violations.append((what, path, found_input))
 
     def known_finding(self, what):
@@ -307,6 +309,21 @@ def run_lines(exe, args, lines, timeout=600, env=None):
     r = subprocess.run([exe] + list(args), input=data, stdout=subprocess.PIPE, stderr=subprocess.PIPE, text=True,
                        timeout=timeout, env=env)
     return r.returncode, r.stdout.split('\n')[:-1] if r.stdout.endswith('\n') else r.stdout.split('\n'), r.stderr
+
+
+def run_lines_parallel(exe, args, lines, nproc=16, timeout=3000):
+    """like run_lines for stateless engines: the lines are split into contiguous chunks run concurrently"""
+    from concurrent.futures import ThreadPoolExecutor
+    if len(lines) < 2 * nproc:
+        return run_lines(exe, args, lines, timeout=timeout)
+    k = (len(lines) + nproc - 1) // nproc
+    chunks = [lines[i:i + k] for i in range(0, len(lines), k)]
+    with ThreadPoolExecutor(nproc) as ex:
+        res = list(ex.map(lambda c: run_lines(exe, args, c, timeout=timeout), chunks))
+    rc = max(r[0] for r in res)
+    out = [l for r in res for l in r[1]]
+    err = ''.join(r[2] for r in res)
+    return rc, out, err
 
 
 def hexs(s):
